@@ -9,7 +9,7 @@ particular its readOnly record, is unchanged).  That no other code assigns `_val
 import z3
 from z3 import Bool, Int, Not
 
-from pyvc.core import (Contract, PInt, PBool, PConst, PDerived, POptions, POneOf, Obj, Tup, FnV, ExcV, _Raise, DictV,
+from pyvc.core import (Contract, PInt, PBool, PConst, PDerived, POptions, POneOf, Obj, Tup, FnV, ExcV, _Raise, DictV, ClassV,
                        NOVALUE, toint)
 
 F = 'pyasn1/type/base.py'
@@ -81,8 +81,12 @@ def _tagset(ex, env):
 def _mk_self(ex, env):
     val = NOVALUE if ex.choose(Bool('self.isSchema'), 'self-schema') else Int('self._value')
     ts = env['ts0']
+    def refine(ex2, self, current, option):
+        """callee contract type.base::Asn1Type._refine (proved below): current narrowed by option"""
+        return Obj('Sum', {'left': current, 'right': option}, name='(current+option)')
     return Obj('SimpleAsn1Type', {'_value': val, 'readOnly': DictV({'tagSet': (True, ts), 'subtypeSpec': (True, SS)}),
-                                  'tagSet': ts, 'subtypeSpec': SS, '__class__': FnV(_ctor, 'self.__class__')}, name='self')
+                                  'tagSet': ts, 'subtypeSpec': SS, '__class__': FnV(_ctor, 'self.__class__')},
+               {'_refine': refine}, name='self')
 
 
 def _same(ex, a, b):
@@ -135,3 +139,68 @@ SIMPLE_SUBTYPE = Contract(
          'through the constructor')
 
 CONTRACTS = [SIMPLE_INIT, SIMPLE_CLONE, SIMPLE_SUBTYPE]
+
+
+# ---- the subtype test used on every assignment into a constructed value (C14): two independent switches -------------------------
+def _typed(name, tags_flag, cons_flag):
+    def make(ex, env):
+        ts = Obj('TagSet', {}, {'isSuperTagSetOf': lambda ex2, self, other: Bool(tags_flag),
+                                '__eq__': lambda ex2, self, other: Bool(tags_flag)}, name=name + '.tagSet')
+        ss = Obj('ConstraintsIntersection', {}, {'isSuperTypeOf': lambda ex2, self, other: Bool(cons_flag),
+                                                 '__eq__': lambda ex2, self, other: Bool(cons_flag)}, name=name + '.subtypeSpec')
+        return Obj('Asn1Type', {'tagSet': ts, 'subtypeSpec': ss}, name=name)
+    return make
+
+
+_REL = {'tagsOk': Bool('tags.related'), 'constraintsOk': Bool('constraints.related')}
+IS_SUPERTYPE = Contract(
+    id='type.base::Asn1Type.isSuperTypeOf', file=F, qual='Asn1Type.isSuperTypeOf', properties=['C14', 'C13'],
+    params=dict(self=PDerived(_typed('self', 'tags.related', 'constraints.related')),
+                other=PConst(Obj('Asn1Type', {'tagSet': Obj('TagSet', {}, name='other.tagSet'),
+                                              'subtypeSpec': Obj('ConstraintsIntersection', {}, name='other.subtypeSpec')}, name='other')),
+                matchTags=PBool(), matchConstraints=PBool()),
+    globals=_REL,
+    ensures=[('each-switch-skips-only-its-own-test',
+              'result == ((not matchTags or tagsOk) and (not matchConstraints or constraintsOk))')],
+    note='TagSet.isSuperTagSetOf and AbstractConstraint.isSuperTypeOf are under contract on their own')
+IS_SAMETYPE = Contract(
+    id='type.base::Asn1Type.isSameTypeWith', file=F, qual='Asn1Type.isSameTypeWith', properties=['C14', 'C13'],
+    params=dict(IS_SUPERTYPE.params), globals=_REL,
+    ensures=[('each-switch-skips-only-its-own-test',
+              'result == (self is other or ((not matchTags or tagsOk) and (not matchConstraints or constraintsOk)))')])
+CONTRACTS = CONTRACTS + [IS_SUPERTYPE, IS_SAMETYPE]
+
+
+# ---- _refine: what subtype() does with an additional constraint (C14: subtyping only ever narrows) -----------------------------
+def _constraint_param(ex, env):
+    is_set = ex.choose(Bool('current.isSet'), 'constraint-set')
+
+    def add(ex2, self, other):
+        # ConstraintsIntersection.__add__ (contracts AbstractConstraintSet.__add__): one more member; the `+` of a bare
+        # SingleValueConstraint is a union of value lists, the other bare constraints have none
+        return Obj('Sum', {'left': self, 'right': other, 'narrows': is_set}, name='(current+option)')
+    return Obj('Constraint', {}, {'__add__': add}, bases=('AbstractConstraint', 'AbstractConstraintSet') if is_set
+               else ('AbstractConstraint',), name='current')
+
+
+def _intersection_of(ex, *members):
+    def add(ex2, self, other):
+        return Obj('Sum', {'left': self, 'right': other, 'narrows': True}, name='(intersection+option)')
+    return Obj('ConstraintsIntersection', {'members': Tup(list(members))}, {'__add__': add},
+               bases=('AbstractConstraint', 'AbstractConstraintSet'), name='ConstraintsIntersection(current)')
+
+
+OPTION = Obj('Constraint', {}, name='option')
+REFINE = Contract(
+    id='type.base::Asn1Type._refine', file=F, qual='Asn1Type._refine', properties=['C14'],
+    params=dict(current=PDerived(_constraint_param), option=PConst(OPTION)),
+    globals={'constraint': {'AbstractConstraint': ClassV('AbstractConstraint'), 'AbstractConstraintSet': ClassV('AbstractConstraintSet'),
+                            'ConstraintsIntersection': FnV(_intersection_of, 'constraint.ConstraintsIntersection'),
+                            '__name__': 'constraint'},
+             'isSet': Bool('current.isSet'), 'theOption': OPTION},
+    ensures=[('always-an-intersection-with-the-option', 'result.narrows is True and result.right is theOption'),
+             ('a-set-is-extended', 'isSet ==> result.left is old(current)'),
+             ('a-bare-constraint-becomes-a-member', '(not isSet) ==> (len(result.left.members) == 1 and '
+                                                    'result.left.members[0] is old(current))')],
+    note='documented usage declares bare constraints at class level (subtypeSpec = ValueRangeConstraint(13, 19))')
+CONTRACTS = CONTRACTS + [REFINE]
